@@ -829,6 +829,8 @@ def expected_value(sh, v, M, op="="):
     if sh == "ign":
         return "(ign)"
     k = sh[0] if isinstance(sh, tuple) else sh
+    if k == "derived":
+        return M.derived(sh[1], v, M)
     if k == "opt":
         return "(some %s)" % expected_value(sh[1], v, M, op)
     if k == "prop":
